@@ -60,7 +60,7 @@ impl DistOracle {
         if self.exact {
             a == b
         } else {
-            super::close(a, b)
+            super::close_rel(a, b)
         }
     }
 
@@ -145,7 +145,7 @@ impl DistOracle {
                         continue;
                     }
                     let through = self.d[s][v] + self.d[v][t];
-                    let on = if self.exact { through == self.d[s][t] } else { super::close(through, self.d[s][t]) };
+                    let on = if self.exact { through == self.d[s][t] } else { super::close_rel(through, self.d[s][t]) };
                     if on && sig[s][t] > 0.0 {
                         acc += sig[s][v] * sig[v][t] / sig[s][t];
                     }
